@@ -78,11 +78,14 @@ def _one(args):
             corner = "zero_block" if idx < 6 else "degenerate_fd" if idx < 12 and d >= 4 else \
                 "selective_last" if idx < 18 else None
             kw = {}
+            if corner is not None or (vtype == "sympy" and d >= 4):
+                # exact sympy runs of 5x5 complex problems at order 5 take minutes
+                N = min(N, 4 if k == 1 else 3)
             if corner == "selective_last":
                 kw = dict(sizes=rng.choice([[1, 3], [2, 3], [1, 1, 3], [3, 3]]), shuffle=False)
                 kw["d"] = sum(kw["sizes"])
                 d = kw.pop("d")
-                N = max(N, 4) if k == 1 else N
+                N = 4 if k == 1 else N
             inst = hermitian.gen_instance(rng, d=d, k=k, N=N, vtype=vtype, corner=corner, **kw)
         except Regenerate:
             continue
